@@ -534,7 +534,13 @@ bool cf_set_time_usec(struct CfValue *cv, const char *value)
 	double v = parse_time(value);
 	if (v < 0)
 		return false;
-	*ptr = (usec_t)(USEC * v);
+	/* round to nearest usec; reject NaN and values that do not fit usec_t */
+	v = USEC * v + 0.5;
+	if (!(v < 18446744073709551616.0)) {
+		errno = ERANGE;
+		return false;
+	}
+	*ptr = (usec_t)v;
 	return true;
 }
 
